@@ -1001,6 +1001,11 @@ func init() {
 					if lit, ok2 := nd.(*ast.BasicLit); ok2 && lit.Value == `"bindToUsePointer"` {
 						ok = true
 					}
+					if cl, ok2 := nd.(*ast.CallExpr); ok2 && bs.calleeName(cl) == "go/types.Scope.Lookup" && len(cl.Args) == 1 {
+						if tv, ok3 := bs.Info.Types[cl.Args[0]]; ok3 && tv.Value != nil && tv.Value.ExactString() == `"bindToUsePointer"` {
+							ok = true // through a named constant
+						}
+					}
 					return true
 				})
 				r.Check(ok && c.Root.Types.Scope().Lookup("bindToUsePointer") != nil, "pointer-mode-flag", bs.Decl.Pos(), "pointer mode is keyed on the marker package declaring bindToUsePointer (it does)")
